@@ -123,6 +123,29 @@ func matcherParts(r *core.Run, rulePart, ruleThresh string) {
 						}
 					}
 					r.Check(okKeys, rulePart, fnm+"#rename pairing/marks-own-indices", ap.Pos(), "the used marks are set for the candidate's own indices", "the used marks are not keyed by the paired candidate's indices")
+					// ... each side with its own index: the two marks use different index fields, and a used-set is
+					// marked under the same index field it is tested with
+					markField := map[ssa.Value]string{}
+					distinct := map[string]bool{}
+					for _, mu := range marks {
+						if _, f, ok := sigField(mu.Key); ok {
+							markField[mu.Map] = f
+							distinct[f] = true
+						}
+					}
+					agree := len(distinct) == len(marks)
+					core.InstrsOf(fn, func(in2 ssa.Instruction) {
+						lk, ok := in2.(*ssa.Lookup)
+						if !ok {
+							return
+						}
+						if mf, isMarked := markField[lk.X]; isMarked {
+							if _, f, okF := sigField(lk.Index); okF && f != mf {
+								agree = false
+							}
+						}
+					})
+					r.Check(agree, rulePart, fnm+"#rename pairing/marks-match-tests", ap.Pos(), "each used-set is marked under the index it is tested with, the two sides under different indices", "a used-set is marked under another index than the one it is tested with (or both marks use the same index): a function already paired stays available and is paired twice, and the function at the wrongly marked position appears in no entry")
 				} else {
 					// name pairing: the new result is the commaok lookup of the same name
 					okLookup := false
@@ -464,6 +487,93 @@ func c09Maps(r *core.Run) {
 			}
 		}
 		r.Floor("C09.MAPS", "match recordings inside loops", n, 1)
+		// the positional alignment pairs instructions taken from two sequences at two running indices; it is
+		// one-to-one because a recorded pair consumes both: on the way from the recording back to the loop header
+		// both indices change (an index left as it is offers the same instruction for a second pairing)
+		nAl := 0
+		for _, vs := range callSitesThroughForwarders(p, "pkg/diff", rec) {
+			fn, ci := vs.fn, vs.call
+			if fn == rec || len(vs.args) < 3 {
+				continue
+			}
+			h := core.LoopHeaderOf(ci.Block())
+			if h == nil {
+				continue
+			}
+			indexPhi := func(v ssa.Value) *ssa.Phi {
+				// v = seq[idx] with idx = phi or phi ± const, phi at the loop header
+				for _, o := range core.Origins(core.Unwrap(v)) {
+					u, ok := o.(*ssa.UnOp)
+					if !ok || u.Op != token.MUL {
+						continue
+					}
+					ia, ok := u.X.(*ssa.IndexAddr)
+					if !ok {
+						continue
+					}
+					idx := ia.Index
+					if b, isB := idx.(*ssa.BinOp); isB && (b.Op == token.SUB || b.Op == token.ADD) {
+						if _, isK := core.ConstInt(b.Y); isK {
+							idx = b.X
+						}
+					}
+					if ph, isPhi := idx.(*ssa.Phi); isPhi && ph.Block() == h {
+						return ph
+					}
+				}
+				return nil
+			}
+			pOld, pNew := indexPhi(vs.args[1]), indexPhi(vs.args[2])
+			if pOld == nil || pNew == nil || pOld == pNew {
+				continue
+			}
+			nAl++
+			// one path from the recording back to the header
+			cut := map[core.Edge]bool{}
+			path := core.PathAvoiding(ci.Block(), h, cut)
+			unchanged := ""
+			if len(path) >= 2 {
+				blockAt := func(idx int) *ssa.BasicBlock { return fn.Blocks[idx] }
+				for _, ph := range []*ssa.Phi{pOld, pNew} {
+					k := len(path) - 1
+					var v ssa.Value = ph
+					// value entering the header along the path, resolved through merge phis on the path
+					for k >= 1 {
+						cur, isPhi := v.(*ssa.Phi)
+						if !isPhi || cur.Block() != blockAt(path[k]) {
+							// defined earlier on the path? step back
+							found := false
+							for m := k - 1; m >= 1; m-- {
+								if cp, ok := v.(*ssa.Phi); ok && cp.Block() == blockAt(path[m]) {
+									k = m
+									found = true
+									break
+								}
+							}
+							if !found {
+								break
+							}
+							continue
+						}
+						pred := blockAt(path[k-1])
+						for ei, pb := range cur.Block().Preds {
+							if pb == pred {
+								v = cur.Edges[ei]
+							}
+						}
+						k--
+					}
+					if v == ssa.Value(ph) {
+						unchanged = ph.Comment
+						if unchanged == "" {
+							unchanged = ph.Name()
+						}
+					}
+				}
+			}
+			r.Check(unchanged == "" && len(path) >= 2, "C09.MAPS", core.FuncName(fn)+"→"+rec.Name()+"#alignment-consumes-both", ci.Pos(), "a recorded pair advances both running indices", "after a pair is recorded one of the two running indices ("+unchanged+") reaches the next iteration unchanged: the same instruction is offered again and paired a second time, so the matching is not one-to-one and the reverse map is overwritten")
+		}
+		r.Floor("C09.MAPS", "positional alignments that record matches", nAl, 1)
 	}
 }
 
@@ -512,6 +622,73 @@ func c09Count(r *core.Run) {
 			case "Removed":
 				n++
 				r.Check(ext(st.Val) == 2, "C09.COUNT", fnm+"#Summary.Removed", st.Pos(), "Removed = len(removed list of the matcher)", "Summary.Removed is "+core.Canon(st.Val)+", not the length of the removed list")
+			case "Preserved":
+				// a counter: every increment that feeds it happens under "the entry just listed has this status"
+				n++
+				var incs []*ssa.BinOp
+				seen := map[ssa.Value]bool{}
+				var walk func(v ssa.Value, d int)
+				walk = func(v ssa.Value, d int) {
+					if v == nil || seen[v] || d > 20 {
+						return
+					}
+					seen[v] = true
+					switch x := v.(type) {
+					case *ssa.Phi:
+						for _, e := range x.Edges {
+							walk(e, d+1)
+						}
+					case *ssa.BinOp:
+						if k, isK := core.ConstInt(x.Y); isK && k == 1 && x.Op == token.ADD {
+							incs = append(incs, x)
+							walk(x.X, d+1)
+						}
+					case *ssa.UnOp:
+						if x.Op != token.MUL {
+							return
+						}
+						switch a := x.X.(type) {
+						case *ssa.Alloc:
+							for _, s2 := range core.StoresTo(a) {
+								walk(s2.Val, d+1)
+							}
+						case *ssa.FieldAddr:
+							// a field of a local tally struct: every store to that field of that variable
+							if base, isAl := a.X.(*ssa.Alloc); isAl && base.Referrers() != nil {
+								for _, ref := range *base.Referrers() {
+									if fa2, ok := ref.(*ssa.FieldAddr); ok && fa2.Field == a.Field {
+										for _, s2 := range core.StoresTo(fa2) {
+											walk(s2.Val, d+1)
+										}
+									}
+								}
+							}
+						}
+					}
+				}
+				walk(st.Val, 0)
+				want := strings.ToLower(f)
+				okAll := len(incs) > 0
+				for _, inc := range incs {
+					ok1, n1, _ := core.MustPass(fn, inc.Block(), func(cond ssa.Value) (bool, bool) {
+						op, x, y, neg, ok := core.Compare(cond)
+						if !ok || neg || (op != token.EQL && op != token.NEQ) {
+							return false, false
+						}
+						for _, pair := range [][2]ssa.Value{{x, y}, {y, x}} {
+							if sv, isC := core.ConstString(pair[1]); isC && sv == want {
+								if base, isSt := core.FieldLoad(core.Unwrap(pair[0]), "Status"); isSt && core.IsNamed(base.Type(), modelsPath(p), "FunctionDiff") {
+									return true, op == token.EQL
+								}
+							}
+						}
+						return false, false
+					})
+					if !(ok1 && n1 > 0) {
+						okAll = false
+					}
+				}
+				r.Check(okAll, "C09.COUNT", fnm+"#Summary."+f, st.Pos(), "the counter is incremented only for an entry whose status is "+want, "Summary."+f+" is incremented under another condition than `entry.Status == \""+want+"\"`: the summary counter and the number of listed entries with that status drift apart (e.g. a renamed pair with equal fingerprints)")
 			case "TotalFunctions":
 				n++
 				s := core.Canon(core.Resolve(st.Val))
